@@ -263,6 +263,9 @@ func payloadFor(kind string, id int) []byte {
 		return []byte(`{"query":""}`)
 	case "none":
 		return nil
+	case "trailing":
+		// a complete object followed by further bytes is not a JSON text
+		return []byte(fmt.Sprintf(`{"query":"id=%d"} ]`, id))
 	default:
 		return []byte(`{"query":`)
 	}
@@ -665,7 +668,7 @@ func genCase() *rapid.Generator[Case] {
 			case k < 45:
 				c.Prog = append(c.Prog, Op{K: "release", Pick: rapid.IntRange(0, 5).Draw(t, "pick")})
 			case k < 75:
-				c.Prog = append(c.Prog, Op{K: "qreq", Pick: rapid.IntRange(0, 3).Draw(t, "pick"), Payload: rapid.SampledFrom([]string{"valid", "valid", "valid", "valid", "empty", "none", "malformed"}).Draw(t, "payload"), B: genBehav(t)})
+				c.Prog = append(c.Prog, Op{K: "qreq", Pick: rapid.IntRange(0, 3).Draw(t, "pick"), Payload: rapid.SampledFrom([]string{"valid", "valid", "valid", "valid", "empty", "none", "malformed", "trailing"}).Draw(t, "payload"), B: genBehav(t)})
 			case k < 85:
 				c.Prog = append(c.Prog, Op{K: "advance", D: rapid.SampledFrom([]int{1, 10, 500, 999, 1000, 1001, 2000, 5000}).Draw(t, "d")})
 			default:
